@@ -19,6 +19,7 @@ import gen_checks as GC
 import gen_main
 import gen_main2
 import gen_clear2
+import gen_plumb
 import gen_market
 import gen_asset
 
@@ -130,7 +131,7 @@ def run(ctx):
                        'keeps that constant as a summand: the identity is stated up to that constant 0']
     # booking-group models with theorems for ALL zones (coq/GenMarket, coq/GenAsset), each with its own
     # state correspondence and oracle
-    out.proof = common.proof_status_many([(FAMILY, PROPFILE)] + gen_market.PROOFS + gen_asset.PROOFS + gen_main2.PROOFS + gen_clear2.PROOFS)
+    out.proof = common.proof_status_many([(FAMILY, PROPFILE)] + gen_market.PROOFS + gen_asset.PROOFS + gen_main2.PROOFS + gen_clear2.PROOFS + gen_plumb.PROOFS)
     gen_market.extra(ctx, out)
     gen_asset.extra(ctx, out)
     # (the whole-pipeline correspondence of coq/GenMain2 runs in the C01, C05 and C07 checks; here its theorems are re-checked)
